@@ -267,6 +267,9 @@ pub fn explain_with(env: &Env, d: &D, v: &JsVal, mode: Mode, got: bool, through_
 pub struct C01;
 
 impl Check for C01 {
+    fn fuzz_runs(&self) -> u64 {
+        15000
+    }
     fn id(&self) -> &'static str {
         "C01"
     }
